@@ -39,7 +39,7 @@ META = dict(
                 "defaults are used only for to_vtk (a VTK file does not carry them; not demanded). Legacy files: cell extents "
                 "along single-point axes are left open by the property. Trusted: TLC, tlaval parser, VTK's FindCell/readers, "
                 "pyvista, the independent legacy writer."),
-    technique="TLA+ model of the rectilinear grid / file / reader (C16.tla) + TLC exhaustive; states replayed into the library with VTK as independent consumer; library traces validated by TLC (C16Trace.tla)",
+    technique="TLA+ model of the rectilinear grid / file / reader (C16.tla) + TLC exhaustive; states replayed into the library with VTK as independent consumer; library traces validated by TLC (C16Trace.tla); Apalache on the integer core for meshes of any size (C16Core.tla: grid cell of a centre, read-back, x-fastest bijection)",
     design_ref="DESIGN.md section 7 C16",
 )
 
@@ -653,6 +653,9 @@ def guard_construct(ctx, ncases):
 
 def run(ctx):
     df = core.import_library()
+    # the integer core (spec/C16Core.tla): Apalache discharges grid, read-back and cell order for meshes of any size
+    from .. import apalache
+    apalache.run_stage(ctx, module="C16Core.tla", obligations=apalache.C16_OBLIGATIONS, claim=apalache.C16_CLAIM, timeout=600)
     embs = embed.for_tier(ctx.tier, ctx.seed)
     r = ctx.model("MC_C16", f"C16_{ctx.tier}.cfg", dump=True)
     if r.ok:
